@@ -8,6 +8,7 @@ package main
 import (
 	"fmt"
 	"go/ast"
+	"go/token"
 )
 
 func init() { extraConsts = append(extraConsts, linConsts) }
@@ -28,6 +29,146 @@ func countMethodCalls(fd *ast.FuncDecl, methods ...string) int64 {
 		return true
 	})
 	return n
+}
+
+// lock operations of fd: acquisitions (Lock/RLock), plain releases, deferred releases, and the
+// position of the first acquisition
+type lockShape struct {
+	acq, rel, deferred int
+	first              token.Pos
+}
+
+func lockShapeOf(fd *ast.FuncDecl) lockShape {
+	var ls lockShape
+	inDefer := map[*ast.CallExpr]bool{}
+	ast.Inspect(fd, func(x ast.Node) bool {
+		if d, ok := x.(*ast.DeferStmt); ok {
+			inDefer[d.Call] = true
+		}
+		ce, ok := x.(*ast.CallExpr)
+		if !ok || len(ce.Args) != 0 {
+			return true
+		}
+		se, ok := ce.Fun.(*ast.SelectorExpr)
+		if !ok {
+			return true
+		}
+		switch se.Sel.Name {
+		case "Lock", "RLock":
+			ls.acq++
+			if ls.first == token.NoPos || ce.Pos() < ls.first {
+				ls.first = ce.Pos()
+			}
+		case "Unlock", "RUnlock":
+			if inDefer[ce] {
+				ls.deferred++
+			} else {
+				ls.rel++
+			}
+		}
+		return true
+	})
+	return ls
+}
+
+// positions of the calls <x>.<method>(...) in fd
+func methodCallPos(fd *ast.FuncDecl, methods ...string) []token.Pos {
+	var out []token.Pos
+	ast.Inspect(fd, func(x ast.Node) bool {
+		if ce, ok := x.(*ast.CallExpr); ok {
+			if se, ok := ce.Fun.(*ast.SelectorExpr); ok {
+				for _, m := range methods {
+					if se.Sel.Name == m {
+						out = append(out, ce.Pos())
+					}
+				}
+			}
+		}
+		return true
+	})
+	return out
+}
+
+// does every path through the top-level statements of fd take a lock before pos?  Accepted:
+// a top-level `x.Lock()` / `x.RLock()` statement, or a top-level if/else whose two branches each
+// start a locked section (lock statement + deferred unlock), before pos.
+func lockedOnEveryPathBefore(fd *ast.FuncDecl, pos token.Pos) bool {
+	isLockStmt := func(s ast.Stmt) bool {
+		es, ok := s.(*ast.ExprStmt)
+		if !ok {
+			return false
+		}
+		ce, ok := es.X.(*ast.CallExpr)
+		if !ok || len(ce.Args) != 0 {
+			return false
+		}
+		se, ok := ce.Fun.(*ast.SelectorExpr)
+		return ok && (se.Sel.Name == "Lock" || se.Sel.Name == "RLock")
+	}
+	// a lock statement among the statements of b that start before `before`
+	blockLocks := func(b *ast.BlockStmt, before token.Pos) bool {
+		for _, s := range b.List {
+			if s.Pos() < before && isLockStmt(s) {
+				return true
+			}
+		}
+		return false
+	}
+	for _, s := range fd.Body.List {
+		if s.Pos() >= pos {
+			break
+		}
+		if isLockStmt(s) {
+			return true
+		}
+		if is, ok := s.(*ast.IfStmt); ok {
+			eb, _ := is.Else.(*ast.BlockStmt)
+			switch {
+			case is.End() <= pos:
+				if eb != nil && blockLocks(is.Body, pos) && blockLocks(eb, pos) {
+					return true
+				}
+			case is.Body.Pos() <= pos && pos < is.Body.End():
+				return blockLocks(is.Body, pos) // pos is inside the then-branch
+			case eb != nil && eb.Pos() <= pos && pos < eb.End():
+				return blockLocks(eb, pos)
+			}
+		}
+	}
+	return false
+}
+
+// whole-function locked section: every acquisition is released by a defer (so it is held until
+// the function returns), some lock is taken on every path before `pos`
+func heldUntilReturnFrom(fd *ast.FuncDecl, pos token.Pos) bool {
+	ls := lockShapeOf(fd)
+	return ls.acq > 0 && ls.rel == 0 && ls.deferred == ls.acq && ls.first < pos && lockedOnEveryPathBefore(fd, pos)
+}
+
+// does fd contain a call of a method named `name` inside the body of a for/range statement?
+func callsInLoop(fd *ast.FuncDecl, name string) bool {
+	found := false
+	ast.Inspect(fd, func(x ast.Node) bool {
+		var body *ast.BlockStmt
+		switch l := x.(type) {
+		case *ast.ForStmt:
+			body = l.Body
+		case *ast.RangeStmt:
+			body = l.Body
+		}
+		if body != nil {
+			ast.Inspect(body, func(y ast.Node) bool {
+				if ce, ok := y.(*ast.CallExpr); ok {
+					if se, ok := ce.Fun.(*ast.SelectorExpr); ok && se.Sel.Name == name {
+						found = true
+					}
+				}
+				return true
+			})
+		}
+		return true
+	})
+	return found
 }
 
 func linConsts(repo string, add func(string, int64, string)) error {
@@ -61,6 +202,22 @@ func linConsts(repo string, add func(string, int64, string)) error {
 			}
 			return true
 		})
+		// ... or OpenFile write-locks m.mu itself (held until it returns) and calls, inside that
+		// section, a method without lock operations of its own that looks up and creates
+		if !own && countMethodCalls(of, "Lock") > 0 {
+			ast.Inspect(of, func(x ast.Node) bool {
+				if ce, ok := x.(*ast.CallExpr); ok {
+					if se, ok := ce.Fun.(*ast.SelectorExpr); ok {
+						if h := m.fn("MemMapFs", se.Sel.Name); h != nil && h != of && lockShapeOf(h).acq == 0 &&
+							countMethodCalls(h, "CreateFile") > 0 && countMethodCalls(h, "getData") > 0 &&
+							heldUntilReturnFrom(of, ce.Pos()) {
+							own = true
+						}
+					}
+				}
+				return true
+			})
+		}
 		if !own {
 			return fmt.Errorf("memmap.go: OpenFile: neither the lookup-then-Create shape nor a single write-locked lookup+create section recognised")
 		}
@@ -69,6 +226,111 @@ func linConsts(repo string, add func(string, int64, string)) error {
 		"memmap.go OpenFile: 1 iff a missing file is created by a separate call of Create after the lookup released the lock (two critical sections)")
 	add("lin_openfile_setmode", b2i(countMethodCalls(of, "setFileMode") > 0),
 		"memmap.go OpenFile: 1 iff the mode of a created file is set by a trailing setFileMode (a further lookup by name)")
+	// OpenFile: where is the handle finished (O_APPEND seek, O_TRUNC truncate)?
+	//   0: inside the locked section of the lookup/creation (m.mu held until OpenFile returns)
+	//   1: after that section has ended (OpenFile holds no lock when it calls Seek/Truncate)
+	{
+		fin := methodCallPos(of, "Truncate", "Seek")
+		trunc := methodCallPos(of, "Truncate")
+		ls := lockShapeOf(of)
+		switch {
+		case len(trunc) > 0 && ls.acq == 0 && ls.rel == 0 && ls.deferred == 0:
+			// the sections are inside the methods it calls: the handle is finished outside
+			add("lin_openfile_finish_outside", 1,
+				"memmap.go OpenFile: 1 iff Seek (O_APPEND) / Truncate (O_TRUNC) run after the locked lookup/creation section has ended")
+		case len(trunc) > 0:
+			first := fin[0]
+			for _, p := range fin {
+				if p < first {
+					first = p
+				}
+			}
+			if !heldUntilReturnFrom(of, first) {
+				return fmt.Errorf("memmap.go: OpenFile: it takes locks itself, but Seek/Truncate are not inside a section held until it returns; update Model/Lin.v")
+			}
+			add("lin_openfile_finish_outside", 0,
+				"memmap.go OpenFile: 1 iff Seek (O_APPEND) / Truncate (O_TRUNC) run after the locked lookup/creation section has ended")
+		default:
+			// no Truncate in OpenFile itself: every MemMapFs method it calls that truncates must do so
+			// inside a section held until that method returns
+			seen, okAll := 0, true
+			ast.Inspect(of, func(x ast.Node) bool {
+				if ce, ok := x.(*ast.CallExpr); ok {
+					if se, ok := ce.Fun.(*ast.SelectorExpr); ok {
+						if h := m.fn("MemMapFs", se.Sel.Name); h != nil && h != of {
+							if tp := methodCallPos(h, "Truncate"); len(tp) > 0 {
+								seen++
+								if !heldUntilReturnFrom(h, tp[0]) {
+									okAll = false
+								}
+							}
+						}
+					}
+				}
+				return true
+			})
+			if seen == 0 || !okAll {
+				return fmt.Errorf("memmap.go: OpenFile: the O_TRUNC truncation was not found in a recognised place (OpenFile itself or a locked helper); update Model/Lin.v")
+			}
+			add("lin_openfile_finish_outside", 0,
+				"memmap.go OpenFile: 1 iff Seek (O_APPEND) / Truncate (O_TRUNC) run after the locked lookup/creation section has ended")
+		}
+	}
+	// mem/file.go Readdirnames: where are the entries' names read?
+	//   1: it calls Readdir (whose locked section returns live entries) and then Name() per entry
+	//   0: the names are taken between Lock and Unlock of the directory (in Readdirnames or in the
+	//      helper it calls), no per-entry Name() afterwards
+	{
+		mf, err := parseSrc(repo, "mem/file.go")
+		if err != nil {
+			return err
+		}
+		rn := mf.fn("File", "Readdirnames")
+		if rn == nil {
+			return fmt.Errorf("mem/file.go: File.Readdirnames not found")
+		}
+		// the names are taken inside [Lock, Unlock] of fn: a `.name` field read or a filepath.Split
+		// call positioned between the only Lock and the only (plain) Unlock
+		namesLocked := func(fn *ast.FuncDecl) bool {
+			lk, ul := methodCallPos(fn, "Lock"), methodCallPos(fn, "Unlock")
+			if len(lk) != 1 || len(ul) != 1 || lk[0] > ul[0] {
+				return false
+			}
+			in := false
+			ast.Inspect(fn, func(x ast.Node) bool {
+				if se, ok := x.(*ast.SelectorExpr); ok && se.Sel.Name == "name" && se.Pos() > lk[0] && se.Pos() < ul[0] {
+					in = true
+				}
+				return true
+			})
+			return in
+		}
+		const doc = "mem/file.go Readdirnames: 1 iff the entries' names are read (Name() per entry) after the directory's locked section has ended"
+		switch {
+		case countMethodCalls(rn, "Readdir") > 0 && callsInLoop(rn, "Name") && lockShapeOf(rn).acq == 0:
+			add("lin_readdirnames_outside", 1, doc)
+		case !callsInLoop(rn, "Name") && namesLocked(rn):
+			add("lin_readdirnames_outside", 0, doc)
+		default:
+			okHelper := false
+			if !callsInLoop(rn, "Name") && countMethodCalls(rn, "Readdir") == 0 {
+				ast.Inspect(rn, func(x ast.Node) bool {
+					if ce, ok := x.(*ast.CallExpr); ok {
+						if se, ok := ce.Fun.(*ast.SelectorExpr); ok {
+							if h := mf.fn("File", se.Sel.Name); h != nil && h != rn && namesLocked(h) && !callsInLoop(h, "Name") {
+								okHelper = true
+							}
+						}
+					}
+					return true
+				})
+			}
+			if !okHelper {
+				return fmt.Errorf("mem/file.go: Readdirnames: neither Readdir + Name() per entry nor names taken inside the directory's locked section recognised; update Model/Lin.v")
+			}
+			add("lin_readdirnames_outside", 0, doc)
+		}
+	}
 	mk := m.fn("MemMapFs", "Mkdir")
 	if mk == nil {
 		return fmt.Errorf("memmap.go: MemMapFs.Mkdir not found")
